@@ -108,7 +108,7 @@ def check_kw_rekey(ctx, repo, qual=NEW):
                           cell=label, result=got, expected=want)
 
 
-@rule("C15.kw-rekey", props=["C15"], min_instances=9, mutants=[
+@rule("C15.kw-rekey", props=["C15", "C01", "C14"], min_instances=9, mutants=[
     ("negate on even parity", ("multivector", "items[target] = - value if swaps % 2 else value", "items[target] = value if swaps % 2 else - value")),
     ("never negate", ("multivector", "items[target] = - value if swaps % 2 else value", "items[target] = value")),
 ])
@@ -493,7 +493,7 @@ def check_accessors(ctx, repo):
     expect_pairs(f"{M}.filter#default", fn, out, {3: "V1"}, "filter() with simp_func keeping V1")
 
 
-@rule("C15.accessors", props=["C15"], min_instances=19, mutants=[
+@rule("C15.accessors", props=["C15", "C08", "C04"], min_instances=19, mutants=[
     ("grade reads the canonical position", ("multivector", "vals = {k: getattr(self, self.algebra.bin2canon[k])\n                for k in self.algebra.indices_for_grades[grades] if k in self.keys()}",
                                            "vals = {k: self._values[i]\n                for i, k in enumerate(self.algebra.indices_for_grades[grades]) if k in self.keys()}")),
     ("asfullmv binary order uses canonical names", ("multivector", "            keys = tuple(range(len(self.algebra)))\n        values = [getattr(self, self.algebra.bin2canon[k]) for k in keys]",
